@@ -197,6 +197,12 @@ func (r *c02Request) ensureDecoy(c c02Case) int {
 // (then it does not count as a defect of the case).
 func c02ApplyPresentationDefect(c c02Case, r *c02Request, d c02Defect, aud string) bool {
 	switch d.Name {
+	case "signer_not_subject", "foreign_cred_in_vp", "mixed_subjects", "mixed_subjects_via_empty_vp":
+		if len(r.main().Creds) == 0 {
+			return false // (after nothing_presented) without honest credentials there is no subject to deviate from
+		}
+	}
+	switch d.Name {
 	// --- subject ---
 	case "signer_not_subject":
 		r.main().Signer = c02KeyOther
@@ -540,8 +546,9 @@ var c02LongWindows = []struct {
 
 // order in which presentation defects are applied (structure first, options last)
 var c02DefectOrder = []string{
+	"nothing_presented",
 	"signer_not_subject", "foreign_cred_in_vp", "mixed_subjects", "mixed_subjects_via_empty_vp",
-	"foreign_definition", "unfulfilled", "forged_map", "nothing_presented",
+	"foreign_definition", "unfulfilled", "forged_map",
 	"bad_vp_sig", "bad_vc_sig", "cred_revoked", "cred_expired",
 	"aud_wrong", "aud_absent", "aud_near_miss", "aud_equivalent", "aud_array_contains", "validity_long", "validity_no_exp", "validity_stale", "nonce_missing",
 	"scope_unknown", "scope_other", "scope_near_miss", "param_missing", "garbage",
